@@ -1,6 +1,7 @@
 package main
 
 import (
+	"encoding/json"
 	"math/rand"
 	"net/http"
 	"strings"
@@ -257,3 +258,124 @@ func sxgPol(args []string) error {
 }
 
 func init() { register("sxg-pol", sxgPol) }
+
+// abstract scenario of tla/MC_SxgPolicy.tla
+type polScn struct {
+	S struct {
+		Ver        string   `json:"ver"`
+		T          string   `json:"t"`
+		Life       int64    `json:"life"`
+		Method     string   `json:"method"`
+		Reqhdr     string   `json:"reqhdr"`
+		Resphdr    string   `json:"resphdr"`
+		Cc         []string `json:"cc"`
+		Ccform     string   `json:"ccform"`
+		Expireshdr bool     `json:"expireshdr"`
+		Status     int      `json:"status"`
+		Vurl       string   `json:"vurl"`
+		Ct         bool     `json:"ct"`
+		Integ      string   `json:"integ"`
+	} `json:"s"`
+	Ok bool `json:"ok"`
+}
+
+// sxg-scn: stdin = scenarios exported by MC_SxgPolicy; each is built as a real signed exchange and verified.
+func sxgScn(args []string) error {
+	r := rand.New(rand.NewSource(seed()))
+	kc := newKeyCert("p256", nil, 0)
+	ctx := &verCtx{prefix: "q"}
+	return eachLine(func(line []byte) error {
+		var q polScn
+		if err := json.Unmarshal(line, &q); err != nil {
+			return err
+		}
+		s := q.S
+		sc := newScenario(r, version.Version(s.Ver))
+		sp := sc.sp
+		sp.expires = sp.date + s.Life
+		sp.method = s.Method
+		sp.status = s.Status
+		sec, ns := sp.date+s.Life/2, 0
+		switch s.T {
+		case "date-1s":
+			sec = sp.date - 1
+		case "date-1ns":
+			sec, ns = sp.date-1, 999999999
+		case "date":
+			sec = sp.date
+		case "date+1s":
+			sec = sp.date + 1
+		case "expires-1s":
+			sec = sp.expires - 1
+		case "expires":
+			sec = sp.expires
+		case "expires+1ns":
+			sec, ns = sp.expires, 1
+		case "expires+1s":
+			sec = sp.expires + 1
+		}
+		if s.Reqhdr != "none" {
+			sc.rawReq[s.Reqhdr] = []string{"v"}
+		}
+		if s.Resphdr != "none" {
+			sc.rawResp[s.Resphdr] = []string{"v"}
+		}
+		if len(s.Cc) > 0 {
+			var ds []string
+			for _, d := range s.Cc {
+				if d == "max-age" || d == "s-maxage" {
+					d += "=60"
+				}
+				if s.Ccform == "upper" {
+					d = strings.ToUpper(d)
+				}
+				ds = append(ds, d)
+			}
+			if s.Ccform == "multi" {
+				sc.rawResp["Cache-Control"] = ds
+			} else {
+				sc.rawResp["Cache-Control"] = []string{strings.Join(ds, ", ")}
+			}
+		}
+		if s.Expireshdr {
+			sc.rawResp["Expires"] = []string{"Thu, 01 Jan 2099 00:00:00 GMT"}
+		}
+		sp.vURL = map[string]string{"same": "https://example.com/v", "otherhost": "https://other.example/v", "http": "http://example.com/v",
+			"otherport": "https://example.com:8443/v", "p443": "https://example.com:443/v", "upperhost": "https://EXAMPLE.com/v",
+			"otherpath": "https://example.com/a/b/c?d=e", "subdomain": "https://www.example.com/v"}[s.Vurl]
+		if !s.Ct {
+			sp.resph.Del("Content-Type")
+		}
+		for k, v := range sc.rawReq {
+			sp.reqh[k] = v
+		}
+		for k, v := range sc.rawResp {
+			sp.resph[k] = v
+		}
+		var signed []map[string]interface{}
+		e, err := buildRecordedErr(sp, kc, &signed)
+		if err != nil {
+			return nil
+		}
+		switch s.Integ {
+		case "other":
+			if e.Version == version.Version1b1 {
+				e.SignatureHeaderValue = strings.Replace(e.SignatureHeaderValue, "integrity=\"mi-draft2\"", "integrity=\"digest/mi-sha256-03\"", 1)
+			} else {
+				e.SignatureHeaderValue = strings.Replace(e.SignatureHeaderValue, "integrity=\"digest/mi-sha256-03\"", "integrity=\"mi-draft2\"", 1)
+			}
+		case "junk":
+			e.SignatureHeaderValue = strings.Replace(e.SignatureHeaderValue, "integrity=\"", "integrity=\"x", 1)
+		}
+		note := string(line)
+		if q.Ok {
+			note = "ABSTRACT-OK " + note
+		} else {
+			note = "ABSTRACT-REJECT " + note
+		}
+		ctx.emitVer(e, kc, sec, ns, signed, true, nil, false, false, note)
+		return nil
+	})
+}
+
+func init() { register("sxg-scn", sxgScn) }
